@@ -5,6 +5,7 @@ package main
 // as a bound event, never silently truncated).
 
 import (
+	"strconv"
 	"go/types"
 	"math/big"
 
@@ -332,6 +333,23 @@ func init() {
 		return ex.bigDecimal(st, a, site)
 	}
 	reg("(*math/big.Int).String", text)
+	// strconv decimal formatting of a symbolic machine integer: same contract as big.Int.Text(10) (fresh digits tied to
+	// the value by the Horner equation); a negative symbolic value is a stated-bound event
+	itoa := func(ex *Exec, st *State, fn *ssa.Function, args []Value, site ssa.Instruction) Value {
+		a := args[0].(*Term)
+		if len(args) > 1 {
+			b := args[1].(*Term)
+			if !b.IsConst() || b.ConstU() != 10 {
+				panic(unsupported("strconv.Format* with base other than 10"))
+			}
+		}
+		if a.IsConst() {
+			return ex.strConst(strconv.FormatInt(a.ConstS(), 10))
+		}
+		return ex.bigDecimal(st, a, site)
+	}
+	reg("strconv.Itoa", itoa)
+	reg("strconv.FormatInt", itoa)
 	reg("(*math/big.Int).Text", func(ex *Exec, st *State, fn *ssa.Function, args []Value, site ssa.Instruction) Value {
 		b := args[1].(*Term)
 		if b.IsConst() && b.ConstU() == 16 {
@@ -365,9 +383,51 @@ func (ex *Exec) bigDecimal(st *State, a *Term, site ssa.Instruction) Value {
 	if maxDigits == 0 {
 		maxDigits = 24
 	}
+	if w <= 64 && maxDigits > 18 {
+		maxDigits = 18
+	}
 	ex.boundIf(st, Slt(a, BV(w, 0)), "big.Int.Text of a negative symbolic value", site)
 	pow := new(big.Int).Exp(big.NewInt(10), big.NewInt(int64(maxDigits)), nil)
 	ex.boundIf(st, Not(Ult(a, bigConst(w, pow))), "big.Int.Text: value has more than bigdigits digits", site)
+	// when the path condition fixes the number of digits (harnesses that case-split on it), use that constant: range
+	// comparisons on the value only, decided by the solver; every other count must be refuted, otherwise n stays symbolic
+	if ex.feasAlways && ex.solver != nil {
+		live := -1
+		for k := 1; k <= maxDigits; k++ {
+			lo := new(big.Int).Exp(big.NewInt(10), big.NewInt(int64(k-1)), nil)
+			hi := new(big.Int).Exp(big.NewInt(10), big.NewInt(int64(k)), nil)
+			c := Ult(a, bigConst(w, hi))
+			if k > 1 {
+				c = And(c, Not(Ult(a, bigConst(w, lo))))
+			}
+			if ex.solver.Feasible(ex.feasTimeout, st.pcs, c) != "unsat" {
+				if live >= 0 {
+					live = -2
+					break
+				}
+				live = k
+			}
+		}
+		if live > 0 {
+			k := live
+			ds := make([]*Term, k)
+			es := make([]Value, k)
+			acc := BV(w, 0)
+			c := True
+			for i := 0; i < k; i++ {
+				ds[i] = ex.nondet("dec.digit", 8)
+				es[i] = ds[i]
+				c = And(c, And(Ule(BV(8, '0'), ds[i]), Ule(ds[i], BV(8, '9'))))
+				acc = Add(Mul(acc, BV(w, 10)), Zext(Sub(ds[i], BV(8, '0')), w))
+			}
+			c = And(c, Eq(acc, a))
+			if k > 1 {
+				c = And(c, Not(Eq(ds[0], BV(8, '0'))))
+			}
+			st.assume(c)
+			return &SliceV{Base: ex.newArray(st, es), Off: i64(0), Len: i64(int64(k)), Cap: i64(int64(k))}
+		}
+	}
 	n := ex.nondet("dec.len", 64)
 	ds := make([]*Term, maxDigits) // ds[0] most significant of the n digits
 	es := make([]Value, maxDigits)
